@@ -280,6 +280,12 @@ func sameSet(a, b []string) bool {
 func checkCatalog(n *Node, fs *simos.FS, res *Result, seed uint64, when string, ops []string) bool {
 	res.Evals++
 	viol := func(class, sig, detail string) bool {
+		if strings.HasPrefix(when, "quiescent") {
+			// concurrent mode: one signature per kind of disagreement
+			sig = "conc|catalog-mismatch|" + class
+		} else {
+			sig = "seq|" + sig
+		}
 		res.AddViolation(&Violation{Prop: "C17", Class: class, Sig: "C17|" + sig, Detail: detail, Seed: seed,
 			Replay: map[string]interface{}{"engine": "catalog", "ops": ops}})
 		return false
@@ -360,6 +366,27 @@ func setDiff(a, b []string) string {
 	return s
 }
 
+func modeOf(concurrent bool) string {
+	if concurrent {
+		return "conc"
+	}
+	return "seq"
+}
+
+// c17Cause folds the many surface forms of the catalog's concurrency failures
+// into a few causes (the stable part of a signature).
+func c17Cause(msg, stack string) string {
+	switch {
+	case strings.Contains(msg, "no such file or directory"):
+		return "removed-file"
+	case strings.Contains(msg, "divide by zero"):
+		return "zero-timeframe"
+	case strings.Contains(msg, "Failed attempt to write to WAL"), strings.Contains(stack, "wal.ReadStatus"), strings.Contains(stack, "readStatus"):
+		return "wal-gone"
+	}
+	return normMsg(msg) + " [" + stackFrames(stack, 1) + "]"
+}
+
 func c17Engine() *Engine {
 	return &Engine{Name: "MODEL+SCHED", Run: func(seed uint64, tier string, res *Result) {
 		r := simrt.NewRand(seed ^ 0x1717)
@@ -427,7 +454,7 @@ func c17Engine() *Engine {
 					es = "err: " + firstLine(e.Error())
 					if ae, ok := e.(*APIError); ok && ae.Panic {
 						hadPanic = true
-						res.AddViolation(&Violation{Prop: "C17", Class: "request-panic", Sig: "C17|request-panic|" + strings.Fields(d)[0] + "|" + normMsg(ae.Msg) + " [" + stackFrames(ae.Stack, 1) + "]", Seed: seed,
+						res.AddViolation(&Violation{Prop: "C17", Class: "request-panic", Sig: "C17|" + modeOf(concurrent) + "|panic|" + c17Cause(ae.Msg, ae.Stack), Seed: seed,
 							Detail: fmt.Sprintf("client %d: %s panicked: %s [%s]", who, d, firstLine(ae.Msg), stackFrames(ae.Stack, 3)), Replay: map[string]interface{}{"ops": append([]string{}, ops...)}})
 					}
 				}
@@ -465,11 +492,15 @@ func c17Engine() *Engine {
 		res.AddDistinct(fmt.Sprintf("conc=%v/clients=%d/sched=%x", concurrent, nclients, s.Sched%100000))
 		if s.Err != nil && !hadPanic && len(s.Panics) == 0 {
 			// (after a panic the real process would be gone: a later hang is an artefact)
-			res.AddViolation(&Violation{Prop: "C17", Class: "hang", Sig: "C17|hang|" + normMsg(s.Err.Error()), Seed: seed,
+			hk := "deadlock"
+			if strings.Contains(s.Err.Error(), "step cap") {
+				hk = "spin"
+			}
+			res.AddViolation(&Violation{Prop: "C17", Class: "hang", Sig: "C17|" + modeOf(concurrent) + "|hang|" + hk, Seed: seed,
 				Detail: "run did not complete: " + s.Err.Error(), Replay: map[string]interface{}{"ops": ops}})
 		}
 		for _, p := range s.Panics {
-			res.AddViolation(&Violation{Prop: "C17", Class: "task-panic", Sig: "C17|task-panic|" + normMsg(fmt.Sprint(p.Panic)) + " [" + stackFrames(p.Stack, 1) + "]", Seed: seed,
+			res.AddViolation(&Violation{Prop: "C17", Class: "task-panic", Sig: "C17|" + modeOf(concurrent) + "|panic|" + c17Cause(fmt.Sprint(p.Panic), p.Stack), Seed: seed,
 				Detail: fmt.Sprintf("task %s panicked: %v [%s]", p.Name, firstLine(fmt.Sprint(p.Panic)), stackFrames(p.Stack, 3)), Replay: map[string]interface{}{"ops": ops}})
 		}
 		res.Sample(map[string]interface{}{"seed": seed, "concurrent": concurrent, "clients": nclients, "ops": ops})
